@@ -29,17 +29,21 @@ TRUSTED = [
     "C13 regex model: the three regexes of _parse_smaps are modelled as line-anchored extraction (a `\\s+` that would run across a newline is not modelled); Python's `re`, `int()` (only plain digit strings are modelled; '+1', '1_0' are outside), bytes.split/strip and str.strip/endswith on ASCII + non-space code points are trusted",
     "C13 path_exists_strict is a parameter of the model (present / missing / PermissionError); the harness patches it with a table (plus a few cases on real files)",
     "C13 floats: memory_percent is compared with the exact rational 100*value/total at relative tolerance 1e-12",
+    "C13 /proc/meminfo renderer (Spec/C13.lean renderMeminfo = the smaps key-line shape `show_val_kb`): validated on every run by re-rendering the live /proc/meminfo byte-for-byte; only `.total` of virtual_memory() is modelled here (the other svmem fields are C06's)",
+    "C13 call modes: the harness decides which files may be overwritten inside a warm oneshot() block (see ASSUMPTIONS); process_iter() is driven over the fake procfs (one pid directory)",
 ]
 ASSUMPTIONS = [
-    "every mapping of one smaps file prints the same key list (UniformKeys; true of every kernel) — get_blocks' dict is created once and never cleared, the non-uniform counterexample is proved as a latent defect",
+    "every mapping of one smaps file prints the same key list (UniformKeys; true of every kernel, and checked against the live /proc/self/smaps on every run) — get_blocks' dict is created once and never cleared; what the code does on every other file is a theorem (C13_maps_nonuniform_exact), and C13_maps_right_iff_no_stale_key says exactly on which files it is right",
     "file names do not begin with a blank and contain no newline (the kernel escapes it); non-ASCII Unicode spaces (U+0085, U+00A0, …) at the ends of a name are outside the claimed domain",
     "the VmFlags line lists at least one mnemonic; a key line has a number (a bare `Key:` line raises IndexError in psutil; no kernel prints one)",
     "the kernel's roll-up sums kB values (the real kernel keeps sub-kB precision for Pss)",
+    "/proc/meminfo prints every label once and always prints MemTotal and MemFree; /proc/zoneinfo is absent from the fake procfs (virtual_memory's MemAvailable fall-back then cannot raise)",
+    "inside a oneshot() block the answer is that of the first read of a block-cached source (front-end memory_info; _read_smaps_file): the harness overwrites statm / smaps only after such a read succeeded, and never smaps_rollup or (for memory_full_info) statm, which are re-read by design",
 ]
 MANIFEST = {
-    "level_text": "Machine-checked Lean 4 proofs over a model of _pslinux.Process.memory_info / _parse_smaps_rollup / _parse_smaps / memory_full_info / memory_maps and the front-end grouping fold and memory_percent, against kernel-side renderers of statm, smaps and smaps_rollup: C13_statm (round trip for every statm record and page size), C13_maps_roundtrip (memory_maps(renderSmaps ms) = map specRow ms for EVERY list of well-formed mappings: any number, repeated and adversarial paths with spaces/colons/' (deleted)'/key-like names, anonymous mappings, optional lines, values of any size), C13_full_info_sums, C13_rollup_agrees, C13_rollup_fallback, C13_grouped_conservation (finite-map equality with field-wise sums, one row per distinct path), C13_percent, C13_bad_memtype_ValueError, C13_empty_smaps, plus proved counterexamples (file name ending in a blank for the code that strips the path; non-uniform key sets). Tied to the code by ~25 translator facts feeding the proof obligation cfg_good and by a differential run of the real front-end methods over a fake procfs rendered by the Lean renderers, both roll-up variants.",
-    "level_note": "Trusted: Lean kernel + {propext, Classical.choice, Quot.sound}; the translator; the correspondence harness; the kernel renderers (validated against the live kernel each run); Python's re/int/split/strip; the regexes modelled line-anchored; UniformKeys and well-formed names are hypotheses.",
-    "technique": "Lean 4 round-trip and conservation proofs (induction over mapping lists and lines) + translator-fed proof obligation + differential correspondence over rendered procfs content",
+    "level_text": "Machine-checked Lean 4 proofs over a model of _pslinux.Process.memory_info / _parse_smaps_rollup / _parse_smaps / memory_full_info / memory_maps, the front-end grouping fold, memory_percent together with the module cache _TOTAL_PHYMEM, and the /proc/meminfo loop of virtual_memory(), against kernel-side renderers of statm, smaps, smaps_rollup and meminfo: C13_statm (round trip for every statm record and page size), C13_maps_roundtrip (memory_maps(renderSmaps ms) = map specRow ms for EVERY list of well-formed mappings: any number, repeated and adversarial paths with spaces/colons/' (deleted)'/key-like names, anonymous mappings, optional lines, values of any size), C13_maps_nonuniform_exact + C13_maps_right_iff_no_stale_key (what the never-cleared dict of get_blocks does when mappings print different key lists, and exactly which files it gets right; C13_uniform_keys_never_stale: all kernel-reachable ones), C13_full_info_sums, C13_rollup_agrees, C13_rollup_fallback, C13_grouped_conservation (finite-map equality with field-wise sums, one row per distinct path), C13_percent, C13_meminfo_total, C13_percent_end_to_end (from the texts of statm, smaps and meminfo, every pfullmem field), C13_percent_cached_total / C13_percent_history (what the cache does over any history of virtual_memory()/memory_percent() calls), C13_bad_memtype_ValueError, C13_empty_smaps, plus proved counterexamples (file name ending in a blank for the code that strips the path; non-uniform key sets; the stale total after MemTotal changed — known finding C13-percent-stale-total). Tied to the code by ~30 translator facts feeding the proof obligations cfg_good / pcfg_good / cfg_dict_once and by a differential run of the real front-end methods over a fake procfs rendered by the Lean renderers, both roll-up variants, every method reached in 8 call modes (plain, fresh object, oneshot(), warm oneshot() with the world changed after the first read, as_dict(), process_iter()'s object, second call, call after the files held other content).",
+    "level_note": "Trusted: Lean kernel + {propext, Classical.choice, Quot.sound}; the translator; the correspondence harness; the kernel renderers (smaps, statm, meminfo validated against the live kernel each run, incl. the uniform-key-list hypothesis); Python's re/int/split/strip; the regexes modelled line-anchored; well-formed names are hypotheses; memory_percent's staleness after a change of MemTotal is a known finding, not a proof gap.",
+    "technique": "Lean 4 round-trip and conservation proofs (induction over mapping lists, lines and call histories) + translator-fed proof obligations + differential correspondence over rendered procfs content in several call modes",
     "design_ref": "DESIGN.md §5 C13",
 }
 
@@ -75,7 +79,7 @@ FLAGS = [b"rd", b"wr", b"ex", b"sh", b"mr", b"mw", b"me", b"ms", b"gd", b"pf", b
 MEMTYPES_BAD = ["", "RSS", "foo", "rss ", "addr", "path", "private_dirty", "Rss"]
 
 # call modes (goal: a method must answer the same whichever way it is reached)
-MODES = ["plain", "fresh", "oneshot", "warm", "as_dict", "iter", "twice"]
+MODES = ["plain", "fresh", "oneshot", "warm", "as_dict", "iter", "twice", "after_b"]
 FINDING_STALE = "C13-percent-stale-total"
 # "world B": what the files are overwritten with inside a warm oneshot() block, after the block-cached
 # source has been read — a re-read would be visible in every figure
@@ -216,6 +220,11 @@ def mode_ok(key, mode, memtype=None):
     if mode != "as_dict":
         return True
     return key in ("info", "full", "grouped") or (key == "pct" and memtype == "rss")
+
+
+def eff_mode(key, mode, memtype=None):
+    mode = mode or "plain"
+    return mode if mode_ok(key, mode, memtype) else "plain"
 
 
 def pick_mode(rng, key, memtype=None):
@@ -429,6 +438,30 @@ class Impl:
                 if _plain(r1) != _plain(r2):
                     return {"kind": "exc", "exc": "SecondCallDiffers", "first": repr(_plain(r1))[:300], "second": repr(_plain(r2))[:300]}
                 return r2
+            if mode == "after_b":
+                # the same object answered once while the files held other content ("world B"); now the files are
+                # back: outside oneshot() nothing may be remembered. Object: the shared one or process_iter()'s.
+                use_iter = len(self.used_modes) % 2 == 0
+                q = p
+                if use_iter:
+                    q, err = from_iter()
+                    if q is None:
+                        return err
+                try:
+                    fp.write("%d/statm" % pid, B_STATM)
+                    fp.write("%d/smaps" % pid, B_SMAPS)
+                    fakeproc.outcome(getattr(q, name), *args, **kwargs)
+                finally:
+                    fp.write("%d/statm" % pid, world_a["statm"])
+                    fp.write("%d/smaps" % pid, world_a["smaps"])
+                self.world_changes += 1
+                if use_iter:
+                    q2, err = from_iter()              # the object process_iter() kept in its cache
+                    if q2 is None:
+                        return err
+                    if q2 is not q:
+                        return {"kind": "exc", "exc": "ProcessIterDidNotReuseObject"}
+                return fakeproc.outcome(getattr(q, name), *args, **kwargs)
             if mode == "as_dict":
                 r = fakeproc.outcome(p.as_dict, attrs=[name], ad_value=SENT)
                 if r["kind"] != "ok":
@@ -587,10 +620,14 @@ def canon_grouped(v):
 AD_EXCS = ("AccessDenied", "ZombieProcess")
 
 
-def _adnorm(im, ref):
-    """as_dict() turns AccessDenied / ZombieProcess into ad_value: equal to a reference that raises one of them"""
-    if isinstance(im, dict) and im.get("exc") == "ad_value" and isinstance(ref, dict) and ref.get("exc") in AD_EXCS:
-        return ref
+def _adnorm(im, ref, mode=None):
+    """as_dict() must turn AccessDenied / ZombieProcess into ad_value (and nothing else): an implementation answer
+    `ad_value` equals a reference that raises one of the two; under as_dict the exception itself does NOT."""
+    if isinstance(ref, dict) and ref.get("exc") in AD_EXCS and isinstance(im, dict):
+        if im.get("exc") == "ad_value":
+            return ref
+        if mode == "as_dict" and im.get("exc") in AD_EXCS:
+            return {"exc": im["exc"] + " (propagated out of as_dict instead of ad_value)"}
     return im
 
 
@@ -606,8 +643,9 @@ def compare_case(res, inp, impl, drv_out, findings=()):
     for key in ("info", "full", "maps", "grouped"):
         mo = model[key]
         sp = spec.get(key) if spec else None
-        md = " [mode %s]" % modes.get(key, "plain")
-        im = _adnorm(impl[key], sp if sp is not None else mo)
+        mode = eff_mode(key, modes.get(key))
+        md = " [mode %s]" % mode
+        im = _adnorm(impl[key], sp if sp is not None else mo, mode)
         if key == "grouped":
             if sp is not None and canon_grouped(im) != canon_grouped(sp):
                 res.disagree("spec", inp, {key: im}, {key: mo}, {key: sp}, note=key + ": implementation differs from the specification" + md)
@@ -621,8 +659,9 @@ def compare_case(res, inp, impl, drv_out, findings=()):
     pm = modes.get("pct") or []
     for i, (im, mo) in enumerate(zip(impl["pct"], model["pct"])):
         sp = spec["pct"][i] if spec else None
-        md = " [mode %s]" % (pm[i] if i < len(pm) else "plain")
-        im = _adnorm(im, sp if sp is not None else mo)
+        mode = eff_mode("pct", pm[i] if i < len(pm) else None, inp["pct"][i]["memtype"])
+        md = " [mode %s]" % mode
+        im = _adnorm(im, sp if sp is not None else mo, mode)
         if not pct_equal(im, sp):
             res.disagree("spec", inp, {"pct": im, "i": i}, {"pct": mo}, {"pct": sp},
                          note="memory_percent(%r): implementation differs from 100*field/total%s" % (inp["pct"][i]["memtype"], md))
@@ -633,11 +672,11 @@ def compare_case(res, inp, impl, drv_out, findings=()):
     return compare_hist(res, inp, impl, drv_out, findings)
 
 
-def _hist_equal(st, im, ref):
+def _hist_equal(st, im, ref, mode=None):
     if ref is None:
         return True
     if st["op"] == "pct":
-        return pct_equal(_adnorm(im, ref), ref)
+        return pct_equal(_adnorm(im, ref, mode), ref)
     return im == ref
 
 
@@ -651,13 +690,14 @@ def compare_hist(res, inp, impl, drv_out, findings=()):
         if st["op"] in ("meminfo", "meminfoRaw"):
             continue
         mo, sp = d["model"], d["spec"]
-        md = " [mode %s]" % ((hm[i] if i < len(hm) else None) or "plain")
+        mode = eff_mode("pct", hm[i] if i < len(hm) else None, st.get("memtype"))
+        md = " [mode %s]" % mode
         what = "virtual_memory().total" if st["op"] == "vm" else "memory_percent(%r)" % st["memtype"]
-        if not _hist_equal(st, im, mo):
+        if not _hist_equal(st, im, mo, mode):
             res.disagree("model", inp, {"hist": im, "i": i}, {"hist": mo}, {"hist": sp},
                          note="history step %d, %s: implementation differs from the Lean model%s" % (i, what, md))
             return "model"
-        if not _hist_equal(st, im, sp):
+        if not _hist_equal(st, im, sp, mode):
             if d.get("stale") and st["op"] == "pct":
                 # region of the known finding: the cached total is not the kernel's current one
                 res.known_seen[FINDING_STALE] = res.known_seen.get(FINDING_STALE, 0) + 1
@@ -1003,7 +1043,8 @@ def correspond(ctx, res):
                     "mappings, malformed raw content, real-file-system probes, key lists that differ between mappings (stale and "
                     "never-stale); every method call is made in a call mode drawn per observable from {plain, fresh object, inside "
                     "oneshot(), inside a WARM oneshot() block after the block-cached source was read and then overwritten, "
-                    "as_dict(attrs=[name]), the object yielded by process_iter(), second call on the same object}; 35 % of the cases "
+                    "as_dict(attrs=[name]), the object yielded by process_iter(), second call on the same object, a call on an object "
+                    "(shared or process_iter()'s cached one) that answered before while the files held other content}; 35 % of the cases "
                     "also run a history over psutil._TOTAL_PHYMEM (meminfo rewrites / virtual_memory() / memory_percent(t)); "
                     "non-trivial = at least one mapping or an exception observable; distinct = distinct driver lines")
         res.extra["import_time_flags"] = {"HAS_PROC_SMAPS": impl.has_smaps, "HAS_PROC_SMAPS_ROLLUP": impl.flag0,
@@ -1030,7 +1071,7 @@ def correspond(ctx, res):
         lines += nl
         lines += run_cases(ctx, impl, raws, res)
         res.exhaustive = ("%d enumerated cases: all 18 memtypes (10 valid, 8 invalid) x 6 total-memory configurations; all 16 "
-                          "permission strings; hasRollup x {data, enoent, esrch} x zombie x {one mapping, empty}; all 7 call modes x "
+                          "permission strings; hasRollup x {data, enoent, esrch} x zombie x {one mapping, empty}; all 8 call modes x "
                           "{memory_info, memory_full_info, memory_maps(False), memory_maps(True), memory_percent of all 10 memtypes + "
                           "an unknown one, memory_percent after a change of the total} x {roll-up, ENOENT fall-back, empty zombie}; "
                           "the random families are samples" % len(ex))
